@@ -7,7 +7,7 @@ EXPLAIN = ('ITS execute (params source_chain, message_id, source_address, payloa
            'consume itself is must-guarded by (R1) the TRUE result of AxelarGatewayMessagingClient.validate_message(self, '
            'source_chain, message_id, source_address, keccak256(payload)) addressed to the stored Gateway (the state-changing '
            'consume; client arity = gateway entry arity); (R2) message type decoded from the payload == ReceiveFromHub, '
-           'source_chain == the hub chain constant, a successful strict decode of ReceiveFromHub from the SAME payload, and '
+           'source_chain == the hub chain constant, a successful strict decode of ReceiveFromHub from the SAME payload, type words decoded strictly (validate = true) for the wrapper and the inner message, and '
            'TrustedChain(decoded origin chain) present; (R3) source_address == stored ItsHubAddress; (R4) token movements '
            'are must-guarded by TokenIdConfigKey(decoded token id) present and by successful decoding of the recipient, the '
            'token moved is the registered token of that id; (R5) no non-trapping (try_) cross-contract call and no dropped '
@@ -39,14 +39,15 @@ def check(P, rep):
     hub = hub_chain_const(P)
     rep.floor('hub chain constant (its_hub_chain_name)', int(hub is not None), 1)
     from_payload = lambda t: core(t) == pl
+    strict_type = lambda t: find(t, lambda s_: s_[0] == 'call' and 'abi::MessageType as alloy_sol_types::SolValue>::abi_decode' in s_[1]
+                                 and len(s_[2]) > 1 and const_value(core(s_[2][1])) == 'true') is not None
     is_type_guard = lambda c_: c_[0] == 'cmp' and c_[1] == 'eq' and any(
-        variant_name(core(y)) == 'ReceiveFromHub' and find(x, lambda s: s[0] == 'call' and 'abi::MessageType as alloy_sol_types::SolValue>::abi_decode' in s[1]) is not None
+        variant_name(core(y)) == 'ReceiveFromHub' and strict_type(x)
         and contains(x, pl) for x, y in ((c_[2], c_[3]), (c_[3], c_[2])))
     facts = [
         ('R1', 'approved', 'a consumed, successful gateway validation', tr),
         ('R2', 'type', 'message type of the payload == ReceiveFromHub (explicit comparison or match dispatch)',
-         guard_sel(g, lambda c_: is_type_guard(c_) or (c_[0] == 'is' and c_[1] == 'ReceiveFromHub' and contains(c_[2], pl) and
-                   find(c_[2], lambda s_: s_[0] == 'call' and 'abi::MessageType as alloy_sol_types::SolValue>::abi_decode' in s_[1]) is not None
+         guard_sel(g, lambda c_: is_type_guard(c_) or (c_[0] == 'is' and c_[1] == 'ReceiveFromHub' and contains(c_[2], pl) and strict_type(c_[2])
                    and find(c_[2], lambda s_: decode_call(s_) is not None) is None))),
         ('R2', 'hub-chain', 'source_chain == hub chain constant',
          guard_sel(g, lambda c_: c_[0] == 'cmp' and c_[1] == 'eq' and {strip_sites(core(c_[2])), strip_sites(core(c_[3]))} == {sc, strip_sites(hub)}) if hub else []),
@@ -69,6 +70,18 @@ def check(P, rep):
                 # one finding for the whole entry, not one per effect
                 continue
             rep.check(ok, 'C04.' + r, 'execute:%s:%s' % (effect_tag(e), tagn), '%s is must-guarded by: %s' % (effect_tag(e), desc), esite(g, e), None, w)
+    # supported inner message: each arm's effects lie behind a STRICT decode of the inner type word == that arm's type
+    inner = lambda name: guard_sel(g, lambda c_: c_[0] == 'is' and c_[1] == name and strict_type(c_[2]) and
+                                   find_decode(c_[2], 'ReceiveFromHub', from_payload) is not None)
+    arms = {'InterchainTransfer': [e for e in effs if e.kind == 'xcall' or (e.kind == 'pub' and effect_tag(e) == 'event:interchain_transfer_received')],
+            'DeployInterchainToken': [e for e in effs if e.kind in ('deploy', 'sw') or (e.kind == 'pub' and effect_tag(e) == 'event:interchain_token_deployed')]}
+    for name, es in arms.items():
+        gs = inner(name)
+        rep.floor('execute inner type dispatch == %s (strict)' % name, len(gs), 1)
+        for e in es:
+            ok, _, w = mg(g, [e.node], (), edges(gs)) if gs else (False, None, None)
+            rep.check(ok, 'C04.R2', 'execute:%s:inner-type' % effect_tag(e), '%s is must-guarded by: strictly decoded inner message type == %s' % (effect_tag(e), name),
+                      esite(g, e), None, w)
     # R3 as a single obligation over the entry
     gs = facts[-1][3]
     unguarded = [e for e in effs if not (gs and mg(g, [e.node], (), edges(gs))[0])]
